@@ -75,6 +75,7 @@ type Sess struct {
 	W     *ecs.World
 	M     *Model
 	Cfg   Cfg
+	Cfg0  Cfg // configuration at creation (Cfg.Used grows with late registrations)
 	O     Opts
 	IDs   []ecs.ID
 	idNum map[ecs.ID]int
@@ -96,6 +97,8 @@ type Sess struct {
 	trOps    []uint64
 	targets  map[ecs.Entity]bool // every non-zero target ever used
 	Res      *ResModel
+	ResIDs   []ecs.ResID
+	ResKeys  []string
 	keep     []any
 }
 
@@ -103,7 +106,8 @@ type Sess struct {
 func NewSess(cfg Cfg, o Opts) *Sess {
 	conf := ecs.NewConfig().WithCapacityIncrement(cfg.CapInc).WithRelationCapacityIncrement(cfg.RelCapInc)
 	w := ecs.NewWorld(conf)
-	s := &Sess{W: &w, M: NewModel(), Cfg: cfg, O: o, regs: map[int]*regEntry{}, idNum: map[ecs.ID]int{},
+	cfg.Used = append([]int{}, cfg.Used...)
+	s := &Sess{W: &w, M: NewModel(), Cfg: cfg, Cfg0: cfg, O: o, regs: map[int]*regEntry{}, idNum: map[ecs.ID]int{},
 		Cov: NewCov(), targets: map[ecs.Entity]bool{}, Rng: NewRng(77)}
 	for _, key := range cfg.Types {
 		s.registerType(key)
@@ -114,6 +118,7 @@ func NewSess(cfg Cfg, o Opts) *Sess {
 		s.W.SetListener(s.lsn)
 	}
 	s.tr = 1469598103934665603
+	s.Res = &ResModel{Present: map[int]any{}}
 	return s
 }
 
@@ -236,6 +241,9 @@ func (s *Sess) builder(op *Op) *ecs.Builder {
 // consume iterates a returned query per traversal mode.
 func (s *Sess) consume(q *ecs.Query, op *Op, out *Outcome, visit func(q *ecs.Query)) {
 	out.QCount = -1
+	if op.Probe != "" {
+		s.probeQuery(q, op.Probe)
+	}
 	get := func() {
 		e := q.Entity()
 		out.QEnts = append(out.QEnts, e)
@@ -563,6 +571,64 @@ func (s *Sess) call(op *Op, out *Outcome) {
 		runtime.GC()
 	case "SetListener":
 		s.installListener(op.Lsn)
+	case "Get":
+		w.Get(entOf(*op.E), s.IDs[op.ID])
+	case "Has":
+		w.Has(entOf(*op.E), s.IDs[op.ID])
+	case "QueryRelation":
+		// position a query on entity E, then ask for the relation of component ID
+		q := w.Query(ecs.All())
+		defer func() {
+			if w.IsLocked() {
+				q.Close()
+			}
+		}()
+		for q.Next() {
+			if q.Entity() == entOf(*op.E) {
+				q.Relation(s.IDs[op.ID])
+				return
+			}
+		}
+		s.fail("query.miss", "query over everything did not visit %v", entOf(*op.E))
+	case "EntityAt", "Step":
+		f, _ := s.filterOf(op)
+		q := w.Query(f)
+		defer func() {
+			if w.IsLocked() {
+				q.Close()
+			}
+		}()
+		idx := op.ID
+		if op.Alt {
+			idx = q.Count() + op.ID
+		}
+		if op.K == "EntityAt" {
+			q.EntityAt(idx)
+		} else {
+			q.Step(idx)
+		}
+	case "CacheRegisterCached":
+		r := s.regs[*op.Slot]
+		w.Cache().Register(&r.cached)
+	case "CacheUnregisterTwice":
+		r := s.regs[*op.Slot]
+		c := w.Cache().Register(r.orig)
+		w.Cache().Unregister(&c)
+		w.Cache().Unregister(&c)
+	case "RegisterOverLimit":
+		if op.Alt {
+			ecs.ResourceTypeID(w, TypeOfKey(op.Key))
+		} else {
+			ecs.TypeID(w, TypeOfKey(op.Key))
+		}
+	case "ResRegister":
+		s.resRegister(op.Key)
+	case "ResAdd":
+		s.resAdd(op)
+	case "ResRemove":
+		s.resRemove(op)
+	case "ResHas":
+		w.Resources().Has(s.ResIDs[op.ID])
 	default:
 		if !s.callExtra(op, out) {
 			panic("harness: unknown op kind " + op.K)
@@ -779,9 +845,12 @@ func (s *Sess) apply(op *Op, out *Outcome) []ExpEvent {
 		}
 	case "Reset":
 		m.Reset()
-		if s.Res != nil {
-			s.Res.Reset()
-		}
+		s.Res.Reset()
+	case "ResAdd":
+		s.Res.Present[op.ID] = s.keep[len(s.keep)-1]
+	case "ResRemove":
+		delete(s.Res.Present, op.ID)
+	case "ResRegister", "ResHas", "Get", "Has", "QueryRelation", "EntityAt", "Step":
 	default:
 		exp = s.applyExtra(op, out)
 	}
@@ -983,5 +1052,33 @@ func (s *Sess) modelCounters(op *Op) {
 				n["batch_via_cached_retiring"]++
 			}
 		}
+	}
+}
+
+// probeQuery makes an out-of-range index call on an open query; it must panic and leave the query usable.
+func (s *Sess) probeQuery(q *ecs.Query, probe string) {
+	panicked := func(f func()) (p bool) {
+		defer func() {
+			if recover() != nil {
+				p = true
+			}
+		}()
+		f()
+		return false
+	}
+	var ok bool
+	switch probe {
+	case "entityat-1":
+		ok = panicked(func() { q.EntityAt(-1) })
+	case "entityatcount":
+		ok = panicked(func() { q.EntityAt(q.Count()) })
+	case "step0":
+		ok = panicked(func() { q.Step(0) })
+	case "step-1":
+		ok = panicked(func() { q.Step(-1) })
+	}
+	s.Cov.N["fault:query.index.batch:"+probe]++
+	if !ok {
+		s.fail("illegal.nopanic:query.index", "%s on a batch-result query did not panic", probe)
 	}
 }
